@@ -19,6 +19,7 @@ Proof.
   assert (Hrec : find_op_of_comma_rev tl cnt' (S pos) = Some p -> pos <= p /\ exists t0, nth_error (t :: tl) (p - pos) = Some t0).
   { intros Hr. destruct (IH _ _ _ Hr) as [Hle [t0 Ht0]]. split; [lia|]. exists t0.
     replace (p - pos) with (S (p - S pos)) by lia. exact Ht0. }
+  destruct (1 <? cnt')%Z; [discriminate|].
   destruct t; try (apply Hrec; exact H).
   destruct (cnt' =? 1)%Z; [|apply Hrec; exact H].
   inversion H; subst. split; [lia|]. rewrite Nat.sub_diag. eexists; reflexivity.
